@@ -174,7 +174,7 @@ def units(prop):
         main_load_unit(prop),
         parse_repository_unit(prop),
         instantiate_backend_unit(prop),
-    ]
+    ] + cmd_handler_units(prop)
 
 
 # ------------------------------------------------------------------ config.Config.apply_known: the option table of the file
@@ -551,3 +551,197 @@ def instantiate_backend_unit(prop):
                 loops={'For#1': LoopSpec(t, modifies=['value'] + [('heap', sym.DictC(STR, Opt(ANY)), f) for f in ('has', 'val', 'n', 'order')],
                                          name='For#1', types={'value': Opt(ANY)})},
                 local_types={'kwonly': sym.Dict(STR, Opt(ANY))}, prop=prop)
+
+
+# ------------------------------------------------------------------ _cmd_handler: the effective options reach the command that was asked for
+_REPO_METHODS = ('init', 'benchmark', 'upload_objects', 'download_objects', 'list_objects', 'delete_objects', 'unlock', 'add_key', 'snapshot',
+                 'restore', 'delete_snapshots', 'clean', 'list_files', 'list_snapshots', 'close')
+_ARG_NAMES = ('concurrent', 'quiet', 'cache_directory', 'password', 'key', 'key_output_file', 'name', 'path', 'rate_limit', 'object', 'new_password',
+              'note', 'snapshot', 'columns')
+_REGEX_ARGS = ('object_regex', 'snapshot_regex', 'file_regex')
+_BOOL_ARGS = ('yes', 'no_header', 'shared', 'clone', 'skip_existing')
+
+
+class _RX:
+    """expected value: the combined form of a regex argument (or None when it was not given)"""
+
+    def __init__(self, arg):
+        self.arg = arg
+
+
+def _cmd_expected(action, A, B, settings):
+    """the documented meaning of each command line action, written from the README (not from the code): which repository operation runs,
+    with which of the effective options.  A: non-boolean argument markers, B: the boolean flags of this case."""
+    unlock = ('unlock', {'password': A['password'], 'key': A['key']})
+    if action == 'init':
+        return [('init', {'password': A['password'], 'settings': settings, 'key_output_path': A['key_output_file']})]
+    if action == 'benchmark':
+        return [('benchmark', {0: A['name'], 1: settings})]
+    if action == 'upload-objects':
+        return [('upload_objects', {0: A['path'], 'rate_limit': A['rate_limit'], 'skip_existing': B['skip_existing']})]
+    if action == 'download-objects':
+        return [('download_objects', {'path': A['path'], 'object_regex': _RX('object_regex'), 'rate_limit': A['rate_limit'], 'skip_existing': B['skip_existing']})]
+    if action == 'list-objects':
+        return [('list_objects', {'object_regex': _RX('object_regex')})]
+    if action == 'delete-objects':
+        return [('delete_objects', {0: A['object'], 'confirm': not B['yes']})]
+    if action == 'add-key':
+        shared = B['shared'] or B['clone']
+        # a shared key and a clone need the CURRENT key (repository unlocked first); a clone keeps the current password
+        return ([unlock] if shared else []) + [('add_key', {'password': A['password'] if B['clone'] else A['new_password'], 'settings': settings,
+                                                             'key_output_path': A['key_output_file'], 'shared': shared})]
+    if action == 'snapshot':
+        return [unlock, ('snapshot', {'paths': A['path'], 'note': A['note'], 'rate_limit': A['rate_limit']})]
+    if action == 'restore':
+        return [unlock, ('restore', {'path': A['path'], 'snapshot_regex': _RX('snapshot_regex'), 'file_regex': _RX('file_regex'), 'rate_limit': A['rate_limit']})]
+    if action == 'delete':
+        return [unlock, ('delete_snapshots', {0: A['snapshot'], 'confirm': not B['yes']})]
+    if action == 'clean':
+        return [unlock, ('clean', {})]
+    if action in ('lf', 'list-files'):
+        return [unlock, ('list_files', {'snapshot_regex': _RX('snapshot_regex'), 'file_regex': _RX('file_regex'), 'header': not B['no_header'], 'columns': A['columns']})]
+    if action in ('ls', 'list-snapshots'):
+        return [unlock, ('list_snapshots', {'snapshot_regex': _RX('snapshot_regex'), 'header': not B['no_header'], 'columns': A['columns']})]
+    raise KeyError(action)
+
+
+_CMD_BOOLS = {'upload-objects': ('skip_existing',), 'download-objects': ('skip_existing',), 'delete-objects': ('yes',), 'add-key': ('shared', 'clone'),
+              'delete': ('yes',), 'lf': ('no_header',), 'list-files': ('no_header',), 'ls': ('no_header',), 'list-snapshots': ('no_header',)}
+_CMD_REGEX = {'download-objects', 'list-objects', 'restore', 'lf', 'list-files', 'ls', 'list-snapshots'}
+_CMD_ACTIONS = ('init', 'benchmark', 'upload-objects', 'download-objects', 'list-objects', 'delete-objects', 'add-key', 'snapshot', 'restore', 'delete',
+                'clean', 'lf', 'list-files', 'ls', 'list-snapshots')
+
+
+def _cmd_cases():
+    import itertools
+    for action in _CMD_ACTIONS:
+        flags = _CMD_BOOLS.get(action, ())
+        for combo in itertools.product((False, True), repeat=len(flags)):
+            for rx in ((False, True) if action in _CMD_REGEX else (False,)):
+                B = {f: False for f in _BOOL_ARGS}
+                B.update(dict(zip(flags, combo)))
+                label = action + ''.join(f',{f}={int(v)}' for f, v in zip(flags, combo)) + (',regex' if rx else '')
+                yield label, action, B, rx
+
+
+def cmd_handler_setup(action, B, rx):
+    def setup(b):
+        A = {n: Obj(f'<args.{n}>') for n in _ARG_NAMES}
+        R = {n: (Obj(f'<args.{n}>') if rx else None) for n in _REGEX_ARGS}
+        args = Obj('args', action=action, **A, **R, **B)
+        settings = Obj('<settings>')
+        b.A, b.R, b.B, b.settings_marker, b.args = A, R, B, settings, args
+        b.bind('args', args)
+        b.bind('settings', settings)
+        b.bind('backend_type', Obj('<backend_type>'))
+        b.bind('connection_string', Obj('<connection_string>'))
+        b.backend_type, b.connection_string = b.st.lookup('backend_type'), b.st.lookup('connection_string')
+        b.vars_marker = Obj('<vars(args)>')
+        b.backend_marker = Obj('<backend>')
+        b.combined = {}
+
+        def vars_(interp, st, a, kw):
+            st.emit('vars', of=a[0] if a else None)
+            yield st, b.vars_marker
+
+        def inst(interp, st, a, kw):
+            st.emit('instantiate_backend', args=list(a), kwargs=dict(kw))
+            yield st, b.backend_marker
+
+        def combine(interp, st, a, kw):
+            st.emit('combine', args=list(a))
+            m = Obj(f'<combined {getattr(a[0], "_name", a[0])}>')
+            b.combined[id(m)] = a[0] if a else None
+            yield st, m
+
+        def method(name):
+            def m(interp, st, a, kw):
+                st.emit('repo_call', name=name, args=list(a), kwargs=dict(kw))
+                yield st, None
+            return Model(name, m)
+
+        repo = Obj('<repository>', **{n: method(n) for n in _REPO_METHODS})
+
+        def ctor(interp, st, a, kw):
+            st.emit('repo_ctor', args=list(a), kwargs=dict(kw))
+            yield st, repo
+
+        b.bind('vars', Model('vars', vars_))
+        b.bind('_instantiate_backend', Model('_instantiate_backend', inst))
+        b.bind('utils', Obj('utils', combine_regexes=Model('combine_regexes', combine)))
+        b.bind('Repository', Model('Repository', ctor))
+    return setup
+
+
+def _param_names(method):
+    fn = source.select('replicat/repository.py', f'Repository.{method}')
+    a = fn.args
+    return [x.arg for x in a.posonlyargs + a.args][1:], [x.arg for x in a.kwonlyargs]
+
+
+def cmd_handler_post(prop, label, action):
+    def post(res):
+        b = res.builder
+
+        def same(got, want):
+            if isinstance(want, _RX):
+                given = b.R[want.arg]
+                if given is None:
+                    return got is None
+                return isinstance(got, Obj) and b.combined.get(id(got)) is given
+            if isinstance(want, bool):
+                return isinstance(got, bool) and got is want
+            return got is want
+
+        for p in res.paths:
+            if p.kind not in ('return', 'normal'):
+                res.oblige(p, f'{prop}.cmd_handler[{label}].runs_the_command', z3.BoolVal(False))
+                continue
+            ctor = p.events('repo_ctor')
+            inst = p.events('instantiate_backend')
+            ok = (len(ctor) == 1 and len(inst) == 1 and ctor[0].data['args'] == [b.backend_marker] if ctor and len(ctor[0].data['args']) == 1 else False)
+            if ok:
+                kw = ctor[0].data['kwargs']
+                ok = (set(kw) == {'concurrent', 'quiet', 'cache_directory'} and kw['concurrent'] is b.A['concurrent'] and kw['quiet'] is b.A['quiet']
+                      and kw['cache_directory'] is b.A['cache_directory'])
+                ia = inst[0].data['args']
+                ok = ok and len(ia) == 3 and ia[0] is b.backend_type and ia[1] is b.connection_string and ia[2] is b.vars_marker and not inst[0].data['kwargs']
+                v = p.events('vars')
+                ok = ok and len(v) >= 1 and all(e.data['of'] is b.args for e in v)
+            # the repository runs with the EFFECTIVE concurrency, verbosity and cache directory, on the backend built from the effective
+            # backend options
+            res.oblige(p, f'{prop}.cmd_handler[{label}].repository_built_from_the_effective_options', z3.BoolVal(bool(ok)))
+            want = _cmd_expected(action, b.A, b.B, b.settings_marker) + [('close', {})]
+            got = p.events('repo_call')
+            good = len(got) == len(want)
+            if good:
+                for e, (name, kwargs) in zip(got, want):
+                    if e.data['name'] != name:
+                        good = False
+                        break
+                    pos, kwonly = _param_names(name)
+                    if len(e.data['args']) > len(pos):
+                        good = False
+                        break
+                    # bind the call to the real signature: positional parameters by position (whatever they are called), keyword-only by name
+                    actual = dict(enumerate(e.data['args']))
+                    for k, v in e.data['kwargs'].items():
+                        key = pos.index(k) if k in pos else k
+                        if key in actual:
+                            good = False
+                        actual[key] = v
+                    if not good:
+                        break
+                    if set(actual) != set(kwargs) or not all(same(actual[k], kwargs[k]) for k in kwargs):
+                        good = False
+                        break
+            # exactly the documented operation(s), in order, each with the effective option values (nothing swapped, dropped or defaulted),
+            # then the repository is closed
+            res.oblige(p, f'{prop}.cmd_handler[{label}].documented_operation_with_the_effective_arguments', z3.BoolVal(bool(good)),
+                       meta={'got': [(e.data['name'], sorted(e.data['kwargs'])) for e in got]})
+    return post
+
+
+def cmd_handler_units(prop, only=None):
+    return [Unit(f'{prop}.cmd_handler[{label}]', MAIN_PY, '_cmd_handler', cmd_handler_setup(action, B, rx), cmd_handler_post(prop, label, action), prop=prop)
+            for label, action, B, rx in _cmd_cases() if only is None or action in only]
